@@ -35,6 +35,9 @@ pub enum Act {
   /// emit `.1` into hot source `.0`; the first time the library clones an item during that emission,
   /// the item's Clone pushes `.2` into the same source (user code inside Item::clone). Real run only.
   EmitCloneFeed(usize, Ev, Ev),
+  /// declaration: the first time the pipeline's `tap` runs its next side effect, that closure
+  /// subscribes root `inner` to the same Observable value
+  NestFromTap { inner: usize },
 }
 
 #[derive(Clone, Copy, Debug, PartialEq)]
@@ -96,6 +99,7 @@ impl Case {
         Act::SelfUnsub { outer, trig } => format!("[#{}'s callback at {:?} unsubscribes #{}]", outer, trig, outer),
         Act::InnerUnsub(r, k) => format!("unsub-inner#{}.{}", r, k),
         Act::EmitCloneFeed(i, e, f) => format!("s{}!{} [the item's Clone pushes {} into s{}]", i, e.show(), f.show(), i),
+        Act::NestFromTap { inner } => format!("[tap's side effect subscribes #{}]", inner),
         Act::Emit(i, e) => format!("s{}!{}", i, e.show()),
       })
       .collect();
@@ -496,6 +500,8 @@ impl Trace {
 pub struct RunOpts {
   /// drop all handles at the end and count surviving tokens (C17)
   pub check_tokens: bool,
+  /// the caller drops the pipeline (the Observable value) right after its last subscribe
+  pub drop_pipeline_early: bool,
 }
 
 pub fn run_real(case: &Case, opts: &RunOpts) -> Trace {
@@ -527,7 +533,7 @@ pub fn run_real(case: &Case, opts: &RunOpts) -> Trace {
     .iter()
     .filter_map(|a| match a {
       Act::Sub(r) => Some(*r + 1),
-      Act::Nest { inner, .. } => Some(*inner + 1),
+      Act::Nest { inner, .. } | Act::NestFromTap { inner } => Some(*inner + 1),
       _ => None,
     })
     .max()
@@ -568,9 +574,21 @@ pub fn run_real(case: &Case, opts: &RunOpts) -> Trace {
         .collect(),
       toks: toks.clone(),
       tap_log: tap_log.clone(),
+      tap_hook: Arc::new(Mutex::new(None)),
     };
-    let built = Arc::new(build_typed(&case.pipeline, &env));
-    *rec.built.lock().unwrap() = Some(built.clone());
+    if let Some(inner) = case.acts.iter().find_map(|a| if let Act::NestFromTap { inner } = a { Some(*inner) } else { None }) {
+      let rec2 = rec.clone();
+      *env.tap_hook.lock().unwrap() = Some(Box::new(move || {
+        let b = rec2.built.lock().unwrap().clone();
+        if let Some(b) = b {
+          let s = rec2.subscribe(&b, rec_id(inner));
+          rec2.nested_subs.lock().unwrap().push((inner, s));
+        }
+      }));
+    }
+    let mut built_held = Some(Arc::new(build_typed(&case.pipeline, &env)));
+    let last_sub = case.acts.iter().rposition(|a| matches!(a, Act::Sub(_)));
+    *rec.built.lock().unwrap() = built_held.clone();
     *rec.pushers.lock().unwrap() = env.push.clone();
     drop(env);
     let mut subs: Vec<Option<Subscription<'static>>> = (0..n_roots).map(|_| None).collect();
@@ -578,7 +596,7 @@ pub fn run_real(case: &Case, opts: &RunOpts) -> Trace {
       rec.step.store(step, Ordering::Relaxed);
       match act {
         Act::Sub(r) => {
-          let s = rec.subscribe(&built, rec_id(*r));
+          let s = rec.subscribe(built_held.as_ref().expect("no subscribe after the pipeline was dropped"), rec_id(*r));
           {
             let mut rs = rec.root_subs.lock().unwrap();
             while rs.len() <= *r {
@@ -631,12 +649,16 @@ pub fn run_real(case: &Case, opts: &RunOpts) -> Trace {
             s.unsubscribe()
           }
         }
-        Act::Nest { .. } | Act::Feed { .. } | Act::SelfUnsub { .. } => {}
+        Act::Nest { .. } | Act::Feed { .. } | Act::SelfUnsub { .. } | Act::NestFromTap { .. } => {}
       }
       for (r, s) in rec.nested_subs.lock().unwrap().iter() {
         if subs[*r].is_none() {
           subs[*r] = Some(s.clone());
         }
+      }
+      if opts.drop_pipeline_early && Some(step) == last_sub {
+        built_held = None;
+        *rec.built.lock().unwrap() = None;
       }
       root_live.lock().unwrap().push(subs.iter().map(|s| s.as_ref().map(|s| s.is_subscribed())).collect());
       src_alive.lock().unwrap().push(srcs.iter().map(|s| s.alive()).collect());
@@ -662,7 +684,7 @@ pub fn run_real(case: &Case, opts: &RunOpts) -> Trace {
     rec.pushers.lock().unwrap().clear();
     rec.root_subs.lock().unwrap().clear();
     rec.nested_subs.lock().unwrap().clear();
-    drop(built);
+    drop(built_held);
   }));
   set_monitor_mode(false);
   if let Err(p) = r {
@@ -725,7 +747,7 @@ pub fn run_ref(case: &Case) -> Trace {
     .iter()
     .filter_map(|a| match a {
       Act::Sub(r) => Some(*r + 1),
-      Act::Nest { inner, .. } => Some(*inner + 1),
+      Act::Nest { inner, .. } | Act::NestFromTap { inner } => Some(*inner + 1),
       _ => None,
     })
     .max()
@@ -742,6 +764,9 @@ pub fn run_ref(case: &Case) -> Trace {
     if let Act::SelfUnsub { outer, trig } = a {
       w.self_unsubs.push((rec_id(*outer), *trig, false));
     }
+    if let Act::NestFromTap { inner } = a {
+      w.nest_from_tap = Some((rec_id(*inner), false));
+    }
   }
   for (step, act) in case.acts.iter().enumerate() {
     match act {
@@ -753,7 +778,7 @@ pub fn run_ref(case: &Case) -> Trace {
         }
       }
       Act::Nest { .. } => {}
-      Act::Feed { .. } | Act::SelfUnsub { .. } => {}
+      Act::Feed { .. } | Act::SelfUnsub { .. } | Act::NestFromTap { .. } => {}
       Act::EmitCloneFeed(..) => panic!("MACHINERY: EmitCloneFeed has no reference semantics; reference-free oracles only"),
       Act::InnerUnsub(r, k) => {
         // only an inner observable the subscriber has been handed already can be unsubscribed
